@@ -215,8 +215,9 @@ async fn workload(mut sim: Sim, o: Opts) -> Result<Value, String> {
         quic(&mut config).max_idle_timeout_ms = Some(30_000);
         quic(&mut config).keep_alive_interval_ms = Some(5_000);
         quic(&mut config).max_concurrent_bidi_streams = stream_limit;
-        if o.mode == "mix" || o.mode == "replace" {
-            // generous defaults that never fire: the layers that apply them must leave the request alone
+        if (o.mode == "mix" || o.mode == "replace") && !o.faults {
+            // generous defaults that never fire (fault-free runs; under heavy loss a 4 MB transfer can
+            // take longer than any default): the layers that apply them must leave the request alone
             config.inbound_request_timeout_ms = [None, Some(90_000)][sim.rng.gen_range(0..2)];
             config.outbound_request_timeout_ms = [None, Some(60_000), Some(120_000)][sim.rng.gen_range(0..3)];
         }
